@@ -293,7 +293,7 @@ func judgeC06(c c06Case) (v core.Verdict) {
 
 func TestC06(t *testing.T) {
 	core.Run(t, "C06",
-		"access paths (1-4 steps) generated against the shape of a zoo value (8 variants: pointer/value root, pointer to an interface variable, nil pointers-maps-interfaces, typed nil, reached through map and interface slice, **T): exported / promoted (value- and pointer-embedded) / shadowed fields, map entries by name and by int or named-string key, interface-keyed entries under keys of different dynamic types, slice/array/string elements (indexes also as uintptr variables), keys that do not fit the key type or cannot be hashed, maps behind pointers, slices, value and pointer methods (also of defined int and slice types; value methods through nil pointers are errors), each named step spelt .name or [\"name\"], bases variable / '.' / call result; optionally ending in an invalid step (unexported or missing field, wrong-kind or out-of-range index, bad slice bounds, slice bounds that evaluate to nothing, nil dereference, nil embedded pointer); also: a field promoted through an embedded pointer that sits one level down against a by-value field of the same name one level deeper; a map keyed by an array of interfaces (present, absent and unhashable key values); round 10: slots of a named empty interface type (typed nils, values, as field / element / map entry); a nil pointer to a defined non-struct type with a value-receiver method; two struct types of the same name with different layouts; a struct that embeds the pointer-shallow struct; a family of struct types created for the case (E{*P; M{D}}, T{E}) asked in either order; integer keys on string-keyed maps; oracle = direct reflect resolver: identical value (pointer identity / DeepEqual), other spelling agrees, scalar rendering, invalid => error not panic, absent key => nil; non-trivial = >=2 steps crossing a pointer or interface, or an invalid step at depth>=2",
+		"access paths (1-4 steps) generated against the shape of a zoo value (8 variants: pointer/value root, pointer to an interface variable, nil pointers-maps-interfaces, typed nil, reached through map and interface slice, **T): exported / promoted (value- and pointer-embedded) / shadowed fields, map entries by name and by int or named-string key, interface-keyed entries under keys of different dynamic types, slice/array/string elements (indexes also as uintptr variables), keys that do not fit the key type or cannot be hashed, maps behind pointers, slices, value and pointer methods (also of defined int and slice types; value methods through nil pointers are errors), each named step spelt .name or [\"name\"], bases variable / '.' / call result; optionally ending in an invalid step (unexported or missing field, wrong-kind or out-of-range index, bad slice bounds, slice bounds that evaluate to nothing, nil dereference, nil embedded pointer); also: a field promoted through an embedded pointer that sits one level down against a by-value field of the same name one level deeper; a map keyed by an array of interfaces (present, absent and unhashable key values); round 10: slots of a named empty interface type (typed nils, values, as field / element / map entry); a nil pointer to a defined non-struct type with a value-receiver method; two struct types of the same name with different layouts; a struct that embeds the pointer-shallow struct; a family of struct types created for the case (E{*P; M{D}}, T{E}) asked in either order; integer keys on string-keyed maps; round 11: maps with 64-bit integer keys indexed with numbers that change sign when converted; slices as indexes of an array-keyed map; a context-rooted chain that ends in an absent key; oracle = direct reflect resolver: identical value (pointer identity / DeepEqual), other spelling agrees, scalar rendering, invalid => error not panic, absent key => nil; non-trivial = >=2 steps crossing a pointer or interface, or an invalid step at depth>=2",
 		genC06, judgeC06)
 }
 
